@@ -280,7 +280,7 @@ Theorem paused_no_task_creation sp s e :
 Proof.
   intros Hc Hp He.
   assert (Hq : quiet s = true) by (unfold quiet; rewrite Hp; reflexivity).
-  destruct e as [|i|n| | |x|tid reset|tid|i]; simpl.
+  destruct e as [|i|n| | |x|tid reset|tid|i|]; simpl.
   - rewrite Hc. reflexivity.
   - destruct (remove_first (item_eqb i) (pend s)) as [[it rest]|]; [|reflexivity].
     assert (Hq0 : quiet (set_pend s rest) = true) by exact Hq.
@@ -305,6 +305,7 @@ Proof.
     + rewrite ntasks_do_start_task. reflexivity.
     + pose proof (do_result_quiet sp s aid res Hq) as H.
       destruct (do_result sp s aid res) as [s1 o]. simpl in H. destruct o; simpl; try reflexivity. exact H.
+  - reflexivity.
 Qed.
 
 (* C11: once the workflow is completed, no event except rerun / skip creates a task
@@ -315,7 +316,7 @@ Theorem completed_no_task_creation sp s e :
 Proof.
   intros Hc Hp He.
   assert (Hq : quiet s = true) by (unfold quiet; rewrite Hp; apply orb_true_r).
-  destruct e as [|i|n| | |x|tid reset|tid|i]; simpl; try discriminate He.
+  destruct e as [|i|n| | |x|tid reset|tid|i|]; simpl; try discriminate He.
   - rewrite Hc. reflexivity.
   - destruct (remove_first (item_eqb i) (pend s)) as [[it rest]|]; [|reflexivity].
     assert (Hq0 : quiet (set_pend s rest) = true) by exact Hq.
@@ -341,6 +342,7 @@ Proof.
     + rewrite ntasks_do_start_task. reflexivity.
     + pose proof (do_result_quiet sp s aid res Hq) as H.
       destruct (do_result sp s aid res) as [s1 o]. simpl in H. destruct o; simpl; try reflexivity. exact H.
+  - reflexivity.
 Qed.
 
 Theorem completed_state_frozen sp s e :
